@@ -248,6 +248,56 @@ pub async fn archive_checks(dev: &mut Device, rec: &mut Recorder, seed: u64) {
             cases.push(Case { label: "manifest_checksum_altered".into(), entries: e, must_reject: true, evil: None });
         }
     }
+    // (b1) a checksum in the manifest shortened to a proper prefix of the real
+    // one, or emptied (with the content of a checksummed entry altered as well in
+    // the second form): a prefix or nothing is not a match. Every 64-hex-digit
+    // run of either manifest format is a checksum; which one is drawn from an
+    // independent stream so that the other cases of a seed are unchanged.
+    if let Some(mi) = manifest_idx {
+        let mut r2 = crate::rng::Rng::new(seed).fork("c18.checksum_length");
+        let text = String::from_utf8_lossy(&entries[mi].1).to_string();
+        let bytes = text.as_bytes();
+        let mut runs: Vec<usize> = vec![];
+        let mut run = 0usize;
+        for (p, c) in bytes.iter().enumerate() {
+            if c.is_ascii_hexdigit() {
+                run += 1;
+            } else {
+                if run == 64 {
+                    runs.push(p - 64);
+                }
+                run = 0;
+            }
+        }
+        if !runs.is_empty() {
+            let st = runs[r2.below(runs.len() as u64) as usize];
+            let keep = *r2.pick(&[2usize, 8, 32, 62]);
+            let mut e = entries.clone();
+            let mut b = bytes[..st + keep].to_vec();
+            b.extend_from_slice(&bytes[st + 64..]);
+            e[mi].1 = b;
+            cases.push(Case { label: "manifest_checksum_truncated".into(), entries: e, must_reject: true, evil: None });
+            // every checksum emptied and one byte of every checksummed entry altered
+            let mut e = entries.clone();
+            let mut b: Vec<u8> = vec![];
+            let mut last = 0usize;
+            for st in &runs {
+                b.extend_from_slice(&bytes[last..*st]);
+                last = st + 64;
+            }
+            b.extend_from_slice(&bytes[last..]);
+            e[mi].1 = b;
+            for i in &data_idx {
+                let n = &e[*i].0;
+                if n.starts_with("files/") || n.starts_with("blobs/") {
+                    continue;
+                }
+                let k = e[*i].1.len() - 1;
+                e[*i].1[k] ^= 0x01;
+            }
+            cases.push(Case { label: "manifest_checksums_emptied_and_entries_altered".into(), entries: e, must_reject: true, evil: None });
+        }
+    }
     // (b2) an entry the manifest names is missing
     if !data_idx.is_empty() {
         let i = data_idx[rng.below(data_idx.len() as u64) as usize];
